@@ -9,7 +9,7 @@ import fnmatch, glob, json, os, random, re, subprocess, tempfile, time
 
 from common import *
 
-ALL_INVS = ['I_SingleFlight', 'I_BurstCostsOne', 'I_NoEarlyRelease', 'I_NoUntimelyPublish', 'I_HitServed', 'I_LabelTruth', 'I_OnlyStoredIsShared',
+ALL_INVS = ['I_SingleFlight', 'I_BurstCostsOne', 'I_NoEarlyRelease', 'I_NoUntimelyPublish', 'I_StoreMatchesKey', 'I_HitServed', 'I_LabelTruth', 'I_OnlyStoredIsShared',
             'I_KeyMatch', 'I_HitFresh', 'I_AgeTruth', 'I_RefetchAfterExpiry', 'I_HfpPass', 'I_HfpNeverCached',
             'I_HfpLapses', 'I_PurgeEffective', 'I_BadRecordIsMiss', 'I_NoOwnError', 'I_NoStuck']
 
@@ -86,6 +86,9 @@ def replay(harness, behs, shards=8):
         json.dump(part, open(inp, 'w'))
         p = subprocess.Popen([harness, 'replay', '-in', inp, '-out', os.path.join(tmp, 'trace%d.ndjson' % i),
                               '-report', os.path.join(tmp, 'report%d.json' % i)],
+                             # one P: the controlled scheduler serialises the procs anyway, and per-P caches (sync.Pool)
+                             # then behave deterministically, so that aliasing of pooled buffers shows
+                             env=dict(os.environ, GOMAXPROCS='1'),
                              stdout=subprocess.PIPE, stderr=subprocess.STDOUT, text=True)
         procs.append(p)
     outs = []
